@@ -1,5 +1,6 @@
 (* C04 property theorems. Nothing but statements closed by [exact] and Print Assumptions. *)
 From VF Require Import Common.Base Common.Hist C04.Spec C04.Model C04.Proofs C04.ProofsRange C04.Check C04.ProofsLin.
+From VF Require C04.LazySkip C04.ProofsLazy.
 Local Open Scope Z_scope.
 
 (* single-threaded use matches the reference map / set exactly: for every operation list and every
@@ -93,6 +94,48 @@ Proof.
   repeat (destruct Hin as [<-|Hin]; [simpl in Hh; inversion Hh; lia || discriminate|]). destruct Hin.
 Qed.
 
+(* ---- protocol model (LazySkip.v): the optimistic bottom-lane algorithm, all programs, all schedules ---- *)
+
+(* inductive invariant: the header exists; every next pointer leads to a node with a strictly larger key;
+   every thread's program counter only refers to valid nodes with pred.key < k (< succ.key / = victim.key) *)
+Theorem C04_lazyskip_inv : forall progs sched,
+  ProofsLazy.LInv (LazySkip.run_sched (LazySkip.init progs) sched).
+Proof. exact ProofsLazy.lazy_inv. Qed.
+
+(* the chain reachable from the header is strictly ascending, hence holds at most one node per key
+   (in particular at most one unmarked node per key) *)
+Theorem C04_lazyskip_sorted : forall progs sched fuel,
+  let h := LazySkip.hp (LazySkip.run_sched (LazySkip.init progs) sched) in
+  asc (LazySkip.chain fuel h (LazySkip.next (LazySkip.get h 0))) /\
+  NoDup (LazySkip.chain fuel h (LazySkip.next (LazySkip.get h 0))).
+Proof.
+  exact (fun progs sched fuel => conj (ProofsLazy.lazy_chain_sorted progs sched fuel)
+                                      (ProofsLazy.lazy_chain_nodup progs sched fuel)).
+Qed.
+
+(* the abstract set {key x | fullyLinked x, not marked x} changes only when a thread executes the
+   fullyLinked := true step of an Add or the marked := true step of a Remove on an unmarked victim *)
+Theorem C04_lazyskip_abs_frame : forall progs sched t,
+  let s := LazySkip.run_sched (LazySkip.init progs) sched in
+  LazySkip.abs (LazySkip.hp (LazySkip.step s t)) <> LazySkip.abs (LazySkip.hp s) ->
+  exists th, nth_error (LazySkip.ths s) t = Some th /\
+    ((exists k pred nn, LazySkip.at_pc th = LazySkip.AFull k pred nn) \/
+     (exists k pred v, LazySkip.at_pc th = LazySkip.RMark k pred v /\
+                       LazySkip.marked (LazySkip.get (LazySkip.hp s) v) = false)).
+Proof. exact (fun progs sched t => ProofsLazy.lazy_abs_frame _ t (ProofsLazy.lazy_inv progs sched)). Qed.
+
+(* non-vacuity of the protocol model: three threads, round-robin; all operations complete, the chain is
+   3 -> 5 -> 7 (the first node with key 5 was removed and a new one inserted) *)
+Example C04_lazyskip_nonvacuous :
+  let progs := [[LazySkip.OAdd 5; LazySkip.ORemove 5; LazySkip.OAdd 7];
+                [LazySkip.OAdd 3; LazySkip.OContains 5; LazySkip.OAdd 5];
+                [LazySkip.ORemove 3; LazySkip.OAdd 3]] in
+  let s := LazySkip.run_sched (LazySkip.init progs) (flat_map (fun _ => seq 0 3) (seq 0 60)) in
+  map LazySkip.at_pc (LazySkip.ths s) = [LazySkip.Idle; LazySkip.Idle; LazySkip.Idle] /\
+  LazySkip.chain 10 (LazySkip.hp s) (LazySkip.next (LazySkip.get (LazySkip.hp s) 0)) = [3; 5; 7] /\
+  length (LazySkip.hp s) = 5%nat.
+Proof. vm_compute. auto. Qed.
+
 Print Assumptions C04_seq_map.
 Print Assumptions C04_seq_set.
 Print Assumptions C04_seq_map_state.
@@ -104,3 +147,6 @@ Print Assumptions C04_lin_check_map.
 Print Assumptions C04_lin_check_set.
 Print Assumptions C04_lin_segments.
 Print Assumptions C04_range_ok_b.
+Print Assumptions C04_lazyskip_inv.
+Print Assumptions C04_lazyskip_sorted.
+Print Assumptions C04_lazyskip_abs_frame.
